@@ -60,7 +60,7 @@ func byteSeeds(thorough bool) []seed {
 	perType := map[string]int{}
 	ref.Core(thorough, func(v ref.V) bool {
 		w, err := ref.Encode(v.P, opt)
-		if err != nil || len(w.B) > 4096 && !thorough {
+		if err != nil || len(w.B) > 1100 && !thorough { // quick: seeds of at most 1100 octets (larger encodings are base values of D and thorough seeds)
 			return true
 		}
 		if v.Type == "SliceLossIndication" {
